@@ -409,7 +409,7 @@ def k_refused_unit(ctx, what, seed):
         dec = PusTc.unpack
     else:                                                        # directive PDUs whose data field is shorter than the directive's fixed fields
         kind = r.choice(("eof", "finished", "ack", "metadata", "nak", "prompt", "keep_alive"))
-        cfg = C.rand_cfg(r, crc=0)
+        cfg = C.rand_cfg(r, crc=r.getrandbits(1))
         minimal = {"eof": 10, "finished": 2, "ack": 3, "metadata": 8, "nak": 9, "prompt": 2, "keep_alive": 5}[kind] + (4 if cfg["large"] and kind in ("eof", "metadata", "keep_alive") else 0) + (8 if cfg["large"] and kind == "nak" else 0)
         body = bytes([C.DIRECTIVE_CODE[kind]]) + rand_bytes(r, r.randrange(0, minimal - 1))
         u = R.assemble(cfg, 0, 0, body)
@@ -417,6 +417,10 @@ def k_refused_unit(ctx, what, seed):
         what = f"pdu_short_for_directive/{kind}"
     ok, base = attempt(dec, u)
     ctx.table("refused_unit_alone", f"{what.split('/')[0]}:{'accepted' if ok else type(base).__name__}")
+    if ok and what.startswith("pdu_short_for_directive") and cfg["crc"]:
+        # the data field cannot hold the directive's fixed fields without its last two octets, which are the CRC trailer
+        ctx.ev("refusal_independent_of_what_follows")
+        return ctx.fail("refusal_independent_of_what_follows", "crc_trailer_read_as_parameter_octets", what, case, unit=u, observed=repr(base)[:200])
     if ok:
         return                                                   # accepted on its own: nothing to compare (the other monitors cover accepted units)
     if not isinstance(base, documented_errors()):
